@@ -38,30 +38,30 @@ theorem forBodySig_other {us : List AccId} {en : List (AccId × StateId) × Sig 
 the facts about `a` likewise; nothing about `a` is defined or (straight-line) used. -/
 mutual
 theorem freeS (a : AccId) (D : DTab) (A : Asm) : (s : PStmt) → ∀ (σ cur : Sig) (n : Nat)
-    (ρ : List (StateId × StateId)) (G : Facts), plainPS s = true → a ∉ accsPS s → cur a = none →
+    (ρ : List (StateId × StateId)) (G : Facts), a ∉ accsPS s → cur a = none →
     (weaveS s σ cur n ρ).sig a = killSig (effPS s) (σ a) ∧ (weaveS s σ cur n ρ).cur a = none ∧
     knownS (erasePS s) G a = killRow (effPS s) (G a) ∧
     AgreeS a D A (weaveS s σ cur n ρ).stmt G ∧ (∀ p ∈ (weaveS s σ cur n ρ).pre, p.1 ≠ a)
-  | .setup b fs out inp, σ, cur, n, ρ, G, _, ha, hc => by
+  | .setup b fs out inp, σ, cur, n, ρ, G, ha, hc => by
       have hab : a ≠ b := by simpa [accsPS] using ha
       refine ⟨by simp [weaveS, effPS, sset, hab, killSig], by simp [weaveS, sset, hab, hc],
         by simp [effPS, erasePS, known_setup_other hab, killRow], ?_, by simp [weaveS]⟩
       simp only [weaveS, AgreeS]
       intro h; exact absurd h.symm hab
-  | .launch b lv s, σ, cur, n, ρ, G, _, _, hc => by
+  | .launch b lv s, σ, cur, n, ρ, G, _, hc => by
       refine ⟨by simp [weaveS, effPS, killSig], by simp [weaveS, hc], by simp [effPS, erasePS, knownS, killRow], ?_, by simp [weaveS]⟩
       simp only [weaveS, AgreeS]
       intro hb hcur
       subst hb
       rw [hc] at hcur
       cases h : ρ.lookup s <;> simp [h] at hcur
-  | .await b, σ, cur, n, ρ, G, _, _, hc => by
+  | .await b, σ, cur, n, ρ, G, _, hc => by
       exact ⟨by simp [weaveS, effPS, killSig], by simp [weaveS, hc], by simp [effPS, erasePS, knownS, killRow],
         by simp [weaveS, AgreeS], by simp [weaveS]⟩
-  | .pure d op args, σ, cur, n, ρ, G, _, _, hc => by
+  | .pure d op args, σ, cur, n, ρ, G, _, hc => by
       exact ⟨by simp [weaveS, effPS, killSig], by simp [weaveS, hc], by simp [effPS, erasePS, knownS, killRow],
         by simp [weaveS, AgreeS], by simp [weaveS]⟩
-  | .call t e, σ, cur, n, ρ, G, _, _, hc => by
+  | .call t e, σ, cur, n, ρ, G, _, hc => by
       cases e with
       | true =>
         exact ⟨by simp [weaveS, effPS, noSig, killSig], by simp [weaveS, noSig],
@@ -69,15 +69,13 @@ theorem freeS (a : AccId) (D : DTab) (A : Asm) : (s : PStmt) → ∀ (σ cur : S
       | false =>
         exact ⟨by simp [weaveS, effPS, killSig], by simp [weaveS, hc], by simp [effPS, erasePS, knownS, killRow],
           by simp [weaveS, AgreeS], by simp [weaveS]⟩
-  | .ifS c t e, σ, cur, n, ρ, G, hpl, ha, _ => by
-      have hplt : plainPB t = true := by simp only [plainPS, Bool.and_eq_true] at hpl; exact hpl.1
-      have hple : plainPB e = true := by simp only [plainPS, Bool.and_eq_true] at hpl; exact hpl.2
+  | .ifS c t e, σ, cur, n, ρ, G, ha, _ => by
       have hat : a ∉ accsPB t := fun h => ha (by simp [accsPS, h])
       have hae : a ∉ accsPB e := fun h => ha (by simp [accsPS, h])
       have hcands : a ∉ sortU (accsPB t ++ accsPB e) := by
         rw [mem_sortU]; simpa [accsPS] using ha
-      obtain ⟨ht1, ht2, ht3⟩ := freeB a D A t σ noSig n ρ G hplt hat rfl
-      obtain ⟨he1, he2, he3⟩ := freeB a D A e σ noSig (weaveB t σ noSig n ρ).nxt ρ G hple hae rfl
+      obtain ⟨ht1, ht2, ht3⟩ := freeB a D A t σ noSig n ρ G hat rfl
+      obtain ⟨he1, he2, he3⟩ := freeB a D A e σ noSig (weaveB t σ noSig n ρ).nxt ρ G hae rfl
       have hch : a ∉ ifChanged σ (weaveB t σ noSig n ρ).sig (weaveB e σ noSig (weaveB t σ noSig n ρ).nxt ρ).sig
           (sortU (accsPB t ++ accsPB e)) := fun h => hcands (mem_ifChanged.mp h).1
       refine ⟨?_, by simp [weaveS, ifFinish, noSig], ?_, ?_, by simp [weaveS, ifFinish]⟩
@@ -89,53 +87,60 @@ theorem freeS (a : AccId) (D : DTab) (A : Asm) : (s : PStmt) → ∀ (σ cur : S
         cases effPB t <;> cases effPB e <;> simp [killRow, meetRow_self, meetRow_empty_left, meetRow_empty_right]
       · simp only [weaveS, ifFinish_stmt_eq, AgreeS]
         exact ⟨ht3, he3, fun r hr hra => absurd hra (not_mem_ifResOf hcands r hr)⟩
-  | .forS lb ub st iv body (c :: cs), σ, cur, n, ρ, G, hpl, _, _ => by simp [plainPS] at hpl
-  | .forS lb ub st iv body [], σ, cur, n, ρ, G, hpl, ha, _ => by
-      have hplb : plainPB body = true := by simpa [plainPS] using hpl
-      have hab : a ∉ accsPB body := by simpa [accsPS] using ha
-      have hus : a ∉ sortU (accsPB body) := by rw [mem_sortU]; exact hab
-      have hknown : knownS (erasePS (.forS lb ub st iv body [])) G a = killRow (effPB body) (G a) := by
-        obtain ⟨_, hk1, _⟩ := freeB a D A body σ noSig n ρ G hplb hab rfl
-        obtain ⟨_, hk2, _⟩ := freeB a D A body σ noSig n ρ (headFacts (eraseP body) G) hplb hab rfl
+  | .forS lb ub st iv body car, σ, cur, n, ρ, G, ha, _ => by
+      have hab : a ∉ accsPB body := fun h => ha (by simp [accsPS, h])
+      have hus : a ∉ sortU (accsPB body ++ car.map (·.acc)) := by rw [mem_sortU]; simpa [accsPS] using ha
+      have hknown : knownS (erasePS (.forS lb ub st iv body car)) G a = killRow (effPB body) (G a) := by
+        obtain ⟨_, hk1, _⟩ := freeB a D A body σ noSig n ρ G hab rfl
+        obtain ⟨_, hk2, _⟩ := freeB a D A body σ noSig n ρ (headFacts (eraseP body) G) hab rfl
         simp only [erasePS, known_for, hk2, headFacts_row, hk1]
         cases effPB body <;> simp [killRow, meetRow_self, meetRow_empty_right]
       simp only [weaveS]
       split
-      · obtain ⟨_, _, hagree⟩ := freeB a D A body σ noSig n ρ (headFacts (eraseP body) G) hplb hab rfl
+      · obtain ⟨_, _, hagree⟩ := freeB a D A body σ noSig n ρ (headFacts (eraseP body) G) hab rfl
         refine ⟨?_, by simp [noSig], by simpa [effPS] using hknown, ?_, by simp⟩
         · simp only [effPS]; cases effPB body <;> simp [noSig, killSig]
         · simp only [AgreeS, weaveB_erase]
           exact ⟨hagree, by simp⟩
-      · have hen : (ensure (sortU (accsPB body)) σ n).2.1 a = σ a := ensure_other _ _ _ _ hus
-        obtain ⟨hsig, _, hagree⟩ := freeB a D A body (forBodySig (sortU (accsPB body)) (ensure (sortU (accsPB body)) σ n))
-          noSig ((ensure (sortU (accsPB body)) σ n).2.2 + (sortU (accsPB body)).length) ρ
-          (headFacts (eraseP body) G) hplb hab rfl
-        rw [forBodySig_other hus, hen] at hsig
+      · have hen : (ensure (sortU (accsPB body ++ car.map (·.acc))) σ n).2.1 a = σ a := ensure_other _ _ _ _ hus
+        have hsig : ∀ ρ', (weaveB body (forBodySig (sortU (accsPB body ++ car.map (·.acc)))
+            (ensure (sortU (accsPB body ++ car.map (·.acc))) σ n)) noSig
+            ((ensure (sortU (accsPB body ++ car.map (·.acc))) σ n).2.2 +
+              (sortU (accsPB body ++ car.map (·.acc))).length) ρ').sig a = killSig (effPB body) (σ a) := by
+          intro ρ'
+          have := (freeB a D A body (forBodySig (sortU (accsPB body ++ car.map (·.acc)))
+            (ensure (sortU (accsPB body ++ car.map (·.acc))) σ n)) noSig
+            ((ensure (sortU (accsPB body ++ car.map (·.acc))) σ n).2.2 +
+              (sortU (accsPB body ++ car.map (·.acc))).length) ρ' G hab rfl).1
+          rwa [forBodySig_other hus, hen] at this
+        have hagree : ∀ ρ', AgreeB a D A (weaveB body (forBodySig (sortU (accsPB body ++ car.map (·.acc)))
+            (ensure (sortU (accsPB body ++ car.map (·.acc))) σ n)) noSig
+            ((ensure (sortU (accsPB body ++ car.map (·.acc))) σ n).2.2 +
+              (sortU (accsPB body ++ car.map (·.acc))).length) ρ').blk (headFacts (eraseP body) G) :=
+          fun ρ' => (freeB a D A body _ noSig _ ρ' (headFacts (eraseP body) G) hab rfl).2.2
         refine ⟨?_, by simp [forFinish, noSig], by simpa [effPS] using hknown, ?_, ?_⟩
         · rw [forFinish_sig_eq, lookup_mkIds_none _ _ _ hus, hsig, hen]
           simp only [effPS]
           cases effPB body <;> cases σ a <;> simp [killSig]
         · simp only [forFinish_stmt_eq, AgreeS, erase_appEmpties, weaveB_erase]
-          refine ⟨agree_appEmpties a D A _ _ _ hagree ?_, fun c hc hca => absurd hca (not_mem_forCarOf hus c hc)⟩
+          refine ⟨agree_appEmpties a D A _ _ _ (hagree _) ?_, fun c hc hca => absurd hca (not_mem_forCarOf hus c hc)⟩
           intro p hp hpa
           exact absurd (hpa ▸ (ensure_pre _ _ _ p hp).1) hus
         · intro p hp hpa
-          have : p ∈ (ensure (sortU (accsPB body)) σ n).1 := by simpa [forFinish] using hp
+          have : p ∈ (ensure (sortU (accsPB body ++ car.map (·.acc))) σ n).1 := by simpa [forFinish] using hp
           exact hus (hpa ▸ (ensure_pre _ _ _ p this).1)
 theorem freeB (a : AccId) (D : DTab) (A : Asm) : (b : PBlock) → ∀ (σ cur : Sig) (n : Nat)
-    (ρ : List (StateId × StateId)) (G : Facts), plainPB b = true → a ∉ accsPB b → cur a = none →
+    (ρ : List (StateId × StateId)) (G : Facts), a ∉ accsPB b → cur a = none →
     (weaveB b σ cur n ρ).sig a = killSig (effPB b) (σ a) ∧
     knownB (eraseP b) G a = killRow (effPB b) (G a) ∧
     AgreeB a D A (weaveB b σ cur n ρ).blk G
-  | .nil, σ, cur, n, ρ, G, _, _, _ => by simp [weaveB, effPB, eraseP, knownB, AgreeB, killSig, killRow]
-  | .cons s r, σ, cur, n, ρ, G, hpl, ha, hc => by
-      have hpls : plainPS s = true := by simp only [plainPB, Bool.and_eq_true] at hpl; exact hpl.1
-      have hplr : plainPB r = true := by simp only [plainPB, Bool.and_eq_true] at hpl; exact hpl.2
+  | .nil, σ, cur, n, ρ, G, _, _ => by simp [weaveB, effPB, eraseP, knownB, AgreeB, killSig, killRow]
+  | .cons s r, σ, cur, n, ρ, G, ha, hc => by
       have has : a ∉ accsPS s := fun h => ha (by simp [accsPB, h])
       have har : a ∉ accsPB r := fun h => ha (by simp [accsPB, h])
-      obtain ⟨hs1, hs2, hs3, hs4, hs5⟩ := freeS a D A s σ cur n ρ G hpls has hc
+      obtain ⟨hs1, hs2, hs3, hs4, hs5⟩ := freeS a D A s σ cur n ρ G has hc
       obtain ⟨hr1, hr2, hr3⟩ := freeB a D A r (weaveS s σ cur n ρ).sig (weaveS s σ cur n ρ).cur
-        (weaveS s σ cur n ρ).nxt (weaveS s σ cur n ρ).rho (knownS (erasePS s) G) hplr har hs2
+        (weaveS s σ cur n ρ).nxt (weaveS s σ cur n ρ).rho (knownS (erasePS s) G) har hs2
       refine ⟨?_, ?_, ?_⟩
       · simp only [weaveB, hr1, hs1, effPB]
         cases effPS s <;> cases effPB r <;> simp [killSig]
@@ -166,7 +171,7 @@ def wsDefs (w : WS) : List (StateId × LDef) := w.pre.map (fun p => (p.2, LDef.s
 (`hD`), `A` any `assume` context that does not mention ids from `n` on (`hfr`). -/
 mutual
 theorem mainS (a : AccId) (D : DTab) : (s : PStmt) → ∀ (σ cur : Sig) (n : Nat) (ρ : List (StateId × StateId))
-    (A : Asm) (G : Facts), plainPS s = true → nodupPS s = true →
+    (A : Asm) (G : Facts), nodupPS s = true →
     (∀ q ∈ wsDefs (weaveS s σ cur n ρ), D q.1 = some q.2) →
     (∀ v, n ≤ v → A.lookup v = none) →
     SigIs D A (σ a) (G a) → (∀ v, cur a = some v → σ a = some v) →
@@ -174,7 +179,7 @@ theorem mainS (a : AccId) (D : DTab) : (s : PStmt) → ∀ (σ cur : Sig) (n : N
     (∀ v, (weaveS s σ cur n ρ).cur a = some v → (weaveS s σ cur n ρ).sig a = some v) ∧
     AgreeS a D A (weaveS s σ cur n ρ).stmt G ∧
     (∀ p ∈ (weaveS s σ cur n ρ).pre, p.1 = a → G a = emptyRow ∧ Gives D A p.2 emptyRow)
-  | .setup b fs out inp, σ, cur, n, ρ, A, G, _, hnd, hD, hfr, hsig, hcur => by
+  | .setup b fs out inp, σ, cur, n, ρ, A, G, hnd, hD, hfr, hsig, hcur => by
       have hnd' : (fs.map (·.1)).Nodup := by simpa [nodupPS] using hnd
       have hDn : D n = some (.setup (σ b) fs) := hD (n, .setup (σ b) fs) (by simp [wsDefs, weaveS, ldefsS])
       by_cases hab : b = a
@@ -200,7 +205,7 @@ theorem mainS (a : AccId) (D : DTab) : (s : PStmt) → ∀ (σ cur : Sig) (n : N
           have : cur a = some v := by simpa [weaveS, sset, hab'] using hv
           simpa [weaveS, sset, hab'] using hcur v this
         · simp only [weaveS, AgreeS]; intro h; exact absurd h hab
-  | .launch b lv s, σ, cur, n, ρ, A, G, _, _, _, _, hsig, hcur => by
+  | .launch b lv s, σ, cur, n, ρ, A, G, _, _, _, hsig, hcur => by
       refine ⟨by simpa [weaveS, erasePS, knownS] using hsig, by simpa [weaveS] using hcur, ?_, by simp [weaveS]⟩
       simp only [weaveS, AgreeS]
       intro hb hflag
@@ -212,13 +217,13 @@ theorem mainS (a : AccId) (D : DTab) : (s : PStmt) → ∀ (σ cur : Sig) (n : N
         have hσ := hcur v hflag.symm
         rw [hσ] at hsig
         exact ⟨v, rfl, hsig⟩
-  | .await b, σ, cur, n, ρ, A, G, _, _, _, _, hsig, hcur => by
+  | .await b, σ, cur, n, ρ, A, G, _, _, _, hsig, hcur => by
       exact ⟨by simpa [weaveS, erasePS, knownS] using hsig, by simpa [weaveS] using hcur,
         by simp [weaveS, AgreeS], by simp [weaveS]⟩
-  | .pure d op args, σ, cur, n, ρ, A, G, _, _, _, _, hsig, hcur => by
+  | .pure d op args, σ, cur, n, ρ, A, G, _, _, _, hsig, hcur => by
       exact ⟨by simpa [weaveS, erasePS, knownS] using hsig, by simpa [weaveS] using hcur,
         by simp [weaveS, AgreeS], by simp [weaveS]⟩
-  | .call t e, σ, cur, n, ρ, A, G, _, _, _, _, hsig, hcur => by
+  | .call t e, σ, cur, n, ρ, A, G, _, _, _, hsig, hcur => by
       cases e with
       | true =>
         exact ⟨by simp [weaveS, erasePS, known_call_true, noSig, SigIs], by simp [weaveS, noSig],
@@ -226,9 +231,7 @@ theorem mainS (a : AccId) (D : DTab) : (s : PStmt) → ∀ (σ cur : Sig) (n : N
       | false =>
         exact ⟨by simpa [weaveS, erasePS, knownS] using hsig, by simpa [weaveS] using hcur,
           by simp [weaveS, AgreeS], by simp [weaveS]⟩
-  | .ifS c t e, σ, cur, n, ρ, A, G, hpl, hnd, hD, hfr, hsig, _ => by
-      have hplt : plainPB t = true := by simp only [plainPS, Bool.and_eq_true] at hpl; exact hpl.1
-      have hple : plainPB e = true := by simp only [plainPS, Bool.and_eq_true] at hpl; exact hpl.2
+  | .ifS c t e, σ, cur, n, ρ, A, G, hnd, hD, hfr, hsig, _ => by
       by_cases hc : a ∈ sortU (accsPB t ++ accsPB e)
       · have hndt : nodupPB t = true := by simp only [nodupPS, Bool.and_eq_true] at hnd; exact hnd.1
         have hnde : nodupPB e = true := by simp only [nodupPS, Bool.and_eq_true] at hnd; exact hnd.2
@@ -244,9 +247,9 @@ theorem mainS (a : AccId) (D : DTab) : (s : PStmt) → ∀ (σ cur : Sig) (n : N
           exact List.mem_append_right _ hq
         have hmt := weaveB_mono t σ noSig n ρ
         have hme := weaveB_mono e σ noSig (weaveB t σ noSig n ρ).nxt ρ
-        obtain ⟨ht1, ht2⟩ := mainB a D t σ noSig n ρ A G hplt hndt
+        obtain ⟨ht1, ht2⟩ := mainB a D t σ noSig n ρ A G hndt
           (fun q hq => hDs q (List.mem_append_left _ hq)) hfr hsig (by simp [noSig])
-        obtain ⟨he1, he2⟩ := mainB a D e σ noSig (weaveB t σ noSig n ρ).nxt ρ A G hple hnde
+        obtain ⟨he1, he2⟩ := mainB a D e σ noSig (weaveB t σ noSig n ρ).nxt ρ A G hnde
           (fun q hq => hDs q (List.mem_append_right _ (List.mem_append_left _ hq)))
           (fun v hv => hfr v (by omega)) hsig (by simp [noSig])
         obtain ⟨hf1, hf2⟩ := ifFinish_main a D A c σ (sortU (accsPB t ++ accsPB e)) (weaveB t σ noSig n ρ)
@@ -262,23 +265,22 @@ theorem mainS (a : AccId) (D : DTab) : (s : PStmt) → ∀ (σ cur : Sig) (n : N
           rw [mem_sortU] at hc; simpa [accsPS] using hc
         have heq : weaveS (.ifS c t e) σ cur n ρ = weaveS (.ifS c t e) σ noSig n ρ := by simp only [weaveS]
         rw [heq]
-        obtain ⟨h1, h2, h3, h4, h5⟩ := freeS a D A (.ifS c t e) σ noSig n ρ G hpl ha rfl
+        obtain ⟨h1, h2, h3, h4, h5⟩ := freeS a D A (.ifS c t e) σ noSig n ρ G ha rfl
         refine ⟨by rw [h1, h3]; exact sigIs_kill hsig, by intro v hv; rw [h2] at hv; simp at hv, h4, ?_⟩
         intro p hp hpa; exact absurd hpa (h5 p hp)
-  | .forS lb ub st iv body (c :: cs), σ, cur, n, ρ, A, G, hpl, _, _, _, _, _ => by simp [plainPS] at hpl
-  | .forS lb ub st iv body [], σ, cur, n, ρ, A, G, hpl, hnd, hD, hfr, hsig, _ => by
-      have hplb : plainPB body = true := by simpa [plainPS] using hpl
-      by_cases ha : a ∈ sortU (accsPB body)
+  | .forS lb ub st iv body car, σ, cur, n, ρ, A, G, hnd, hD, hfr, hsig, _ => by
+      by_cases ha : a ∈ sortU (accsPB body ++ car.map (·.acc))
       · have hndb : nodupPB body = true := by simpa [nodupPS] using hnd
-        have hne : ¬ (sortU (accsPB body)).isEmpty = true := by
+        have hne : ¬ (sortU (accsPB body ++ car.map (·.acc))).isEmpty = true := by
           intro h
           rw [List.isEmpty_iff] at h
           rw [h] at ha; simp at ha
         simp only [weaveS, hne, Bool.false_eq_true, if_false] at hD ⊢
         -- names for the pieces
-        generalize hus : sortU (accsPB body) = us at *
+        generalize hus : sortU (accsPB body ++ car.map (·.acc)) = us at *
         generalize hen : ensure us σ n = en at *
-        generalize hwb : weaveB body (forBodySig us en) noSig (en.2.2 + us.length) ρ = wb at *
+        generalize hρb : (car.map fun k => (k.arg, (((mkIds us en.2.2).lookup k.acc).getD 0))) ++ ρ = ρb at *
+        generalize hwb : weaveB body (forBodySig us en) noSig (en.2.2 + us.length) ρb = wb at *
         have hDall : ∀ q ∈ en.1.map (fun p => (p.2, LDef.setup none [])) ++
             ((forCarOf us en wb).map (fun c => (c.arg, LDef.forArg c.init c.yld)) ++
               (ldefsB (appEmpties wb.blk (ensure us wb.sig wb.nxt).1) ++
@@ -315,13 +317,13 @@ theorem mainS (a : AccId) (D : DTab) : (s : PStmt) → ∀ (σ cur : Sig) (n : N
         rw [hen] at hen1 hen2 hen3
         have hmono1 : n ≤ en.2.2 := by have := ensure_mono us σ n; rw [hen] at this; exact this
         have hmono2 : en.2.2 + us.length ≤ wb.nxt := by
-          have := weaveB_mono body (forBodySig us en) noSig (en.2.2 + us.length) ρ
+          have := weaveB_mono body (forBodySig us en) noSig (en.2.2 + us.length) ρb
           rw [hwb] at this; exact this
         have hbody : ∀ (A' : Asm) (G' : Facts), (∀ v, en.2.2 + us.length ≤ v → A'.lookup v = none) →
             SigIs D A' (forBodySig us en a) (G' a) →
             SigIs D A' (wb.sig a) (knownB (eraseP body) G' a) ∧ AgreeB a D A' wb.blk G' := by
           intro A' G' hfr' hs'
-          have := mainB a D body (forBodySig us en) noSig (en.2.2 + us.length) ρ A' G' hplb hndb
+          have := mainB a D body (forBodySig us en) noSig (en.2.2 + us.length) ρb A' G' hndb
             (by rw [hwb]; exact hDbody) hfr' hs' (by simp [noSig])
           rw [hwb] at this; exact this
         have hargsig : ∀ arg : StateId, (mkIds us en.2.2).lookup a = some arg → forBodySig us en a = some arg := by
@@ -331,7 +333,7 @@ theorem mainS (a : AccId) (D : DTab) : (s : PStmt) → ∀ (σ cur : Sig) (n : N
           intro arg harg
           obtain ⟨v, hv, h1, h2⟩ := lookup_mkIds_some us en.2.2 a ha
           rw [hv] at harg; cases harg; exact ⟨h1, h2⟩
-        obtain ⟨⟨arg, harg, hgarg⟩, hf2, hf3, hf4⟩ := forFinish_main a D A lb ub st iv us en wb ρ (G a)
+        obtain ⟨⟨arg, harg, hgarg⟩, hf2, hf3, hf4⟩ := forFinish_main a D A lb ub st iv us en wb _ (G a)
           (knownB (eraseP body) G a) (knownB (eraseP body) (headFacts (eraseP body) G) a) ha hen1
           (hen2 (Or.inr ha)) (fun v hv => hfr v (by omega)) hmono2 hDcar hDpost
           (fun arg x harg hxnd hxr => by
@@ -360,29 +362,27 @@ theorem mainS (a : AccId) (D : DTab) : (s : PStmt) → ∀ (σ cur : Sig) (n : N
             exact ⟨h1, by rw [headFacts_row]; exact h2, h3, h4⟩
         · intro p hp hpa
           exact hen3 p (by simpa [forFinish] using hp) hpa
-      · have ha' : a ∉ accsPS (.forS lb ub st iv body []) := by
+      · have ha' : a ∉ accsPS (.forS lb ub st iv body car) := by
           rw [mem_sortU] at ha; simpa [accsPS] using ha
-        have heq : weaveS (.forS lb ub st iv body []) σ cur n ρ = weaveS (.forS lb ub st iv body []) σ noSig n ρ := by
+        have heq : weaveS (.forS lb ub st iv body car) σ cur n ρ = weaveS (.forS lb ub st iv body car) σ noSig n ρ := by
           simp only [weaveS]
         rw [heq]
-        obtain ⟨h1, h2, h3, h4, h5⟩ := freeS a D A (.forS lb ub st iv body []) σ noSig n ρ G hpl ha' rfl
+        obtain ⟨h1, h2, h3, h4, h5⟩ := freeS a D A (.forS lb ub st iv body car) σ noSig n ρ G ha' rfl
         refine ⟨by rw [h1, h3]; exact sigIs_kill hsig, by intro v hv; rw [h2] at hv; simp at hv, h4, ?_⟩
         intro p hp hpa; exact absurd hpa (h5 p hp)
 theorem mainB (a : AccId) (D : DTab) : (b : PBlock) → ∀ (σ cur : Sig) (n : Nat) (ρ : List (StateId × StateId))
-    (A : Asm) (G : Facts), plainPB b = true → nodupPB b = true →
+    (A : Asm) (G : Facts), nodupPB b = true →
     (∀ q ∈ ldefsB (weaveB b σ cur n ρ).blk, D q.1 = some q.2) →
     (∀ v, n ≤ v → A.lookup v = none) →
     SigIs D A (σ a) (G a) → (∀ v, cur a = some v → σ a = some v) →
     SigIs D A ((weaveB b σ cur n ρ).sig a) (knownB (eraseP b) G a) ∧ AgreeB a D A (weaveB b σ cur n ρ).blk G
-  | .nil, σ, cur, n, ρ, A, G, _, _, _, _, hsig, _ => by
+  | .nil, σ, cur, n, ρ, A, G, _, _, _, hsig, _ => by
       exact ⟨by simpa [weaveB, eraseP, knownB] using hsig, by simp [weaveB, AgreeB]⟩
-  | .cons s r, σ, cur, n, ρ, A, G, hpl, hnd, hD, hfr, hsig, hcur => by
-      have hpls : plainPS s = true := by simp only [plainPB, Bool.and_eq_true] at hpl; exact hpl.1
-      have hplr : plainPB r = true := by simp only [plainPB, Bool.and_eq_true] at hpl; exact hpl.2
+  | .cons s r, σ, cur, n, ρ, A, G, hnd, hD, hfr, hsig, hcur => by
       have hnds : nodupPS s = true := by simp only [nodupPB, Bool.and_eq_true] at hnd; exact hnd.1
       have hndr : nodupPB r = true := by simp only [nodupPB, Bool.and_eq_true] at hnd; exact hnd.2
       simp only [weaveB, ldefs_prepend, ldefsB] at hD
-      obtain ⟨hs1, hs2, hs3, hs4⟩ := mainS a D s σ cur n ρ A G hpls hnds
+      obtain ⟨hs1, hs2, hs3, hs4⟩ := mainS a D s σ cur n ρ A G hnds
         (fun q hq => hD q (by
           simp only [wsDefs, List.mem_append] at hq ⊢
           rcases hq with hq | hq
@@ -390,7 +390,7 @@ theorem mainB (a : AccId) (D : DTab) : (b : PBlock) → ∀ (σ cur : Sig) (n : 
           · exact Or.inr (Or.inl hq))) hfr hsig hcur
       have hm := weaveS_mono s σ cur n ρ
       obtain ⟨hr1, hr2⟩ := mainB a D r (weaveS s σ cur n ρ).sig (weaveS s σ cur n ρ).cur
-        (weaveS s σ cur n ρ).nxt (weaveS s σ cur n ρ).rho A (knownS (erasePS s) G) hplr hndr
+        (weaveS s σ cur n ρ).nxt (weaveS s σ cur n ρ).rho A (knownS (erasePS s) G) hndr
         (fun q hq => hD q (by simp only [List.mem_append]; exact Or.inr (Or.inr hq)))
         (fun v hv => hfr v (by omega)) hs1 hs2
       refine ⟨by simpa [weaveB, eraseP, knownB] using hr1, ?_⟩
